@@ -338,5 +338,13 @@ def proof_stage(rep, module, extra_targets=()):
         rep.violation({"kind": "axiom-audit-failed", "module": module, "axioms": axioms, "forbidden": hits[:10],
                        "log": text[-2000:]}, found_input=False)
         return False
+    if rep.tier == "thorough":
+        # independent re-check of the compiled module (and everything it imports) by the toolchain's own .olean checker
+        rc, out, err = sh(["lake", "env", "leanchecker", "Fx.Props." + module], cwd=LEAN, timeout=3600)
+        rep.cov["leanchecker"] = "ok" if rc == 0 else "FAILED"
+        if rc != 0:
+            rep.cov["discharged"] = 0
+            rep.violation({"kind": "leanchecker-rejects", "module": "Fx.Props." + module, "log": (out + err)[-2000:]}, found_input=False)
+            return False
     rep.cov["discharged"] = len(names) + examples
     return True
